@@ -720,7 +720,13 @@ func RunOne(o core.RunOpts) (res *core.RunResult) {
 				blk := nextBlock(btime)
 				nextAt = now.Add(time.Duration(1+ch.Intn("block.gap", maxGapS)) * time.Second)
 				if w.Halt != nil {
-					fail("chain_halt", "", "the chain halted: %s", w.Halt.Err)
+					if a := chainsim.AnchoredIn("C20", w.Halt.Stack); a != "" {
+						fail("halt_in_anchored_code", "", "block execution panicked inside %s: %s", a, w.Halt.Err)
+					} else if viol == nil {
+						// block execution died elsewhere: that is C02's violation, and this check is inconclusive
+						viol = &core.Violation{Property: "C02", Invariant: "halt", Key: "C02/halt", Detail: w.Halt.Phase + ": " + w.Halt.Err, Height: w.Height}
+						lg.Add("VIOLATION C02/halt: %s", w.Halt.Err)
+					}
 					break
 				}
 				bt := blk.Header.Time.Unix()
